@@ -145,6 +145,17 @@ type idList struct {
 	Wild  bool       `json:"wild"`
 	// Judged=false: the list is outside the stated alphabet (labelled extension) - recorded, not judged.
 	Judged bool `json:"judged"`
+	// Class: the stable class name used in violation keys when the label carries more detail (position, direction, shape).
+	Class string `json:"class,omitempty"`
+	// Control: the identity repeats the (odd) leaf's own values - counted, judged only as an implication.
+	Control bool `json:"control,omitempty"`
+}
+
+func (l idList) key() string {
+	if l.Class != "" {
+		return l.Class
+	}
+	return l.Label
 }
 
 func without(as []attr, t string) []attr {
@@ -347,7 +358,8 @@ func (w *world) run(r *hx.Run, c caseT, env []byte) {
 	w.runWith(r, c, env, nil)
 }
 
-func (w *world) runWith(r *hx.Run, c caseT, env []byte, priorEnv []byte) {
+// runWith returns 1 when authenticity passed, 0 when it failed, -1 when the identity evaluation was not reached.
+func (w *world) runWith(r *hx.Run, c caseT, env []byte, priorEnv []byte) int {
 	ids := []string{}
 	if c.List.Wild {
 		ids = []string{"*"}
@@ -403,10 +415,10 @@ func (w *world) runWith(r *hx.Run, c caseT, env []byte, priorEnv []byte) {
 		// identity lists that are well-formed by the policy rules and contained in a clean leaf subject:
 		// order, spacing and the S/ST alias must not matter, so the policy must be accepted
 		if c.List.Judged && c.Subject.Clean && c.Subject.interpretable() && want {
-			bad("construction/matching-identity-refused:"+c.List.Label, err.Error())
+			bad("construction/matching-identity-refused:"+c.List.key(), err.Error())
 		}
 		r.Outcome("refused-at-construction")
-		return
+		return -1
 	}
 	if priorEnv != nil {
 		r.Eval(1)
@@ -415,7 +427,7 @@ func (w *world) runWith(r *hx.Run, c caseT, env []byte, priorEnv []byte) {
 	outcome, verr := v.Verify(ctx, w.desc, env, notation.VerifierVerifyOptions{ArtifactReference: "reg.io/r@" + w.desc.Digest.String(), SignatureMediaType: forge.Formats[c.Format]})
 	if outcome == nil && verr == nil {
 		bad("nil-outcome-on-success", "Verify returned neither an outcome nor an error")
-		return
+		return -1
 	}
 	rs := vt.ResultOf(outcome, trustpolicy.TypeAuthenticity) // nil outcome with an error: refused before authenticity
 	if len(rs) == 0 {
@@ -424,7 +436,7 @@ func (w *world) runWith(r *hx.Run, c caseT, env []byte, priorEnv []byte) {
 		if want && c.Subject.Clean && c.List.Judged {
 			bad("clean-subject-refused-before-authenticity", fmt.Sprint(verr))
 		}
-		return
+		return -1
 	}
 	got := true // several authenticity entries (the statement does not forbid them): passed means none carries an error
 	for _, x := range rs {
@@ -433,8 +445,8 @@ func (w *world) runWith(r *hx.Run, c caseT, env []byte, priorEnv []byte) {
 		}
 	}
 	if !c.List.Judged {
-		r.Outcome(fmt.Sprintf("extension:%s:passed=%v(not judged)", c.List.Label, got))
-		return
+		r.Outcome(fmt.Sprintf("extension:%s:passed=%v(not judged)", c.List.key(), got))
+		return -1
 	}
 	class := "odd"
 	if c.Subject.Clean {
@@ -446,9 +458,9 @@ func (w *world) runWith(r *hx.Run, c caseT, env []byte, priorEnv []byte) {
 		if !c.Subject.interpretable() {
 			why = "uninterpretable-leaf"
 		}
-		bad("passed/"+why+":"+c.List.Label, "authenticity passed although no listed identity is contained in the leaf subject")
+		bad("passed/"+why+":"+c.List.key(), "authenticity passed although no listed identity is contained in the leaf subject")
 	case !got && want && (c.Subject.Clean || c.List.Wild):
-		bad("failed-although-matching:"+c.List.Label, fmt.Sprintf("authenticity failed: %v", rs[0].Error))
+		bad("failed-although-matching:"+c.List.key(), fmt.Sprintf("authenticity failed: %v", rs[0].Error))
 	case !got && want:
 		r.Outcome(class + ":failed-although-model-matches(odd subject, fail-closed, not judged)")
 	case got:
@@ -464,12 +476,16 @@ func (w *world) runWith(r *hx.Run, c caseT, env []byte, priorEnv []byte) {
 	if got && verr != nil {
 		r.Outcome("recorded:authenticity-passed-but-verification-failed-for-another-reason")
 	}
+	if got {
+		return 1
+	}
+	return 0
 }
 
 func main() {
 	r := hx.New("C04")
-	r.Rule = "every subject of the grammar (mandatory C/ST/O present or absent x optional subsets, plus duplicate-type, multi-valued-RDN, unknown-OID and escaped-value shapes) x every identity list derived from it x format; one real verifier.Verify per case with the trust anchor present; non-trivial = distinct judged cases that reached the identity evaluation"
-	r.Assumptions = []string{"the oracle compares attribute lists kept by the generator; it never parses a distinguished name", "for odd subject shapes (multi-valued RDN, escaped values) only the implication 'passes => some identity is contained in the leaf' is judged", "identity lists marked (extension) are outside the stated alphabet and are recorded without judgement"}
+	r.Rule = "every subject of the grammar (mandatory C/ST/O present or absent x optional subsets, plus duplicate-type, multi-valued-RDN, unknown-OID and escaped-value shapes) x every identity list derived from it x format; one real verifier.Verify per case with the trust anchor present; non-trivial = distinct judged cases that reached the identity evaluation. Round 4 (nearmiss.go): value twins that are equal only after a string preparation (invisible / control code points at start, middle, end; NFC/NFD; compatibility forms; non-ASCII case; look-alike letters; literal escapes) in both directions for every attribute type, and cross-attribute twins (a character moved over the boundary of two attributes without and with each of 15 separator characters, values swapped between types, type=value inside another value), each on a fresh verifier and after an earlier verification; policy changed in place after construction: recorded only"
+	r.Assumptions = []string{"the oracle compares attribute lists kept by the generator; it never parses a distinguished name", "for odd subject shapes (multi-valued RDN, escaped values) only the implication 'passes => some identity is contained in the leaf' is judged", "identity lists marked (extension) are outside the stated alphabet and are recorded without judgement", "value twins that differ only in blanks (doubled, leading, trailing, no-break, tab, newline) are recorded, not judged: the statement says 'independent of spacing'", "whether a verifier notices a policy document that its caller changes after construction is not the statement's business: recorded only"}
 	w := &world{}
 	w.rootAttrs = []attr{{"C", "US"}, {"ST", "WA"}, {"O", "RootCo"}, {"CN", "root"}}
 	w.interAttrs = []attr{{"C", "US"}, {"ST", "WA"}, {"O", "InterCo"}, {"CN", "inter"}}
@@ -582,5 +598,9 @@ func main() {
 	_ = controls
 	_ = controlsOK
 	r.Extra["identity_lists_for_first_subject"] = nLists
+	// round 4: value near misses that need a string preparation or a flattened comparison to collide (nearmiss.go)
+	w.runFamily(r, "prep", prepFamily(), priorEnvs)
+	w.runFamily(r, "cross", crossFamily(), priorEnvs)
+	w.inPlaceFamily(r)
 	r.Finish()
 }
